@@ -49,6 +49,7 @@ class Ctx:
         c = self._cfg.get(k)
         if c is None:
             c = CFG(fn, with_cancel)
+            c._ctx = self
             self._cfg[k] = c
             self.analysed_fns.add(fn.qname)
         return c
